@@ -505,3 +505,23 @@ MUTANTS['C18']['benign-rollover-chunked-bytes'] = ([(IO, """            tmp = Te
             for i in range(0, len(data), 7):
                 tmp.write(data[i:i + 7])
             tmp.seek(pos)""")], 'benign')
+
+MUTANTS['C04']['rename-failure-falls-back-to-copy'] = ([(FU, """        except OSError:
+            if self.rm_part_on_exc:
+                try:
+                    os.unlink(self.part_path)
+                except Exception:
+                    pass  # avoid masking original error
+            raise  # could not save destination file""", """        except OSError:
+            if self.overwrite:
+                # e.g. cross-device or odd file systems: copy the data over instead
+                with open(self.part_path, 'rb') as src, open(self.dest_path, 'wb') as dst:
+                    dst.write(src.read())
+                os.unlink(self.part_path)
+                return
+            if self.rm_part_on_exc:
+                try:
+                    os.unlink(self.part_path)
+                except Exception:
+                    pass  # avoid masking original error
+            raise  # could not save destination file""")], 'detect')
